@@ -110,7 +110,7 @@ def build_request(p, sc_id=None):
                                  "opts": bool(d.get("gap") or d.get("onstart"))})
     T = []
     for fid, t, par, _ in tasks:
-        ov = (t.get("sc") or {}).get(sc_id, {}) if sc_id else {}
+        ov = A.effective_override(p, t, sc_id) if sc_id else {}
         eff = ov.get("effort", t.get("effort"))
         eh = A.effort_hours(eff) if eff else None
         lims = []
@@ -150,7 +150,7 @@ def build_request(p, sc_id=None):
             x = fid
             nodes_ = dict((f, t) for f, t, _, _ in tasks)
             while src is None and x is not None:
-                ov = (nodes_[x].get("sc") or {}).get(sc_id, {}) if sc_id else {}
+                ov = A.effective_override(p, nodes_[x], sc_id) if sc_id else {}
                 src = ov.get("effort", nodes_[x].get("effort"))
                 x = x.rsplit(".", 1)[0] if "." in x else None
             mult = {"d": 8, "w": 40, "h": 1, "m": 1 / 60, "y": 2080, "min": 1 / 60}[src[1]]
